@@ -224,3 +224,124 @@ def lemma_inverse(reg, repo):
 
 LEMMAS = {"siblings_inverse": lemma_inverse, "anc_eq_down": lemma_anc_eq_down, "anc_anc": lemma_anc_anc,
           "lca_lowest": lemma_lca_lowest}
+
+
+# ------------------------------------------------------------------------------------------------------------------
+# trees.terminals verified against its characterisation F (callers use "result == T(tree)" with terms_facts; T(tree)
+# is *defined* as the list characterised by F, which is unique -- the bridging fact is the sorted-list lemma of DESIGN 3.9)
+# ------------------------------------------------------------------------------------------------------------------
+from contracts.common import wf_theory_tokens
+from pyvc.core import named_result
+
+
+def F_terminals(H, tree, r):
+    """r lists the tokens under `tree`: only tokens under tree, strictly increasing in num (globally), and exactly
+    as many as there are (so, by the pigeonhole principle, all of them, each once)"""
+    i, j = z3.Int(fresh_name("fi")), z3.Int(fresh_name("fj"))
+    n = r.n
+    el = lambda q: r.get(q).t
+    return z3.And(
+        n >= 1, n == H.nleaves(tree).t,
+        qforall([i], z3.Implies(z3.And(0 <= i, i < n), z3.And(
+            el(i) != 0, tobool(WF(H, VRef(el(i)))), H.nchild_t(el(i)) == 0,
+            z3.Select(H.f["has_num"], el(i)), tobool(desc(H, tree, VRef(el(i)))))), [el(i)]),
+        qforall([i, j], z3.Implies(z3.And(0 <= i, i < j, j < n), H.num(VRef(el(i))).t < H.num(VRef(el(j))).t),
+                [[el(i), el(j)]]),
+    )
+
+
+def terminals_verified_contract(reg):
+    def requires(S, tree):
+        return conj(WF(S.H, tree), tree != None, wf_theory(S.H), wf_theory_tokens(S.H))
+
+    def inv(S):
+        H, tree, result, it = S.H, S.tree, S.result, toint(S.it)
+        c = reg.get("trees.trees.terminals")
+        a, k = z3.Int(fresh_name("ia")), z3.Int(fresh_name("ik"))
+        dt = H.depth(tree).t
+        own = lambda q: H.pos(H.anc(result.get(q), VInt(dt + 1))).t          # stored position of the child it hangs below
+        off = lambda q: H.snl(tree, q).t
+        TT = lambda q: named_result(c, [VRef(H.child_t(tree.t, q))], H)       # the recursive result for child q
+        return conj(
+            VBool(result.n == off(it)),
+            # what the recursive calls returned for the children processed so far
+            VBool(qforall([k], z3.Implies(z3.And(0 <= k, k < it), F_terminals(H, VRef(H.child_t(tree.t, k)), TT(k))),
+                          [H.child_t(tree.t, k)])),
+            # every element so far: which child it hangs below, and where it sits in that child's list
+            VBool(qforall([a], z3.Implies(z3.And(0 <= a, a < result.n), z3.And(
+                0 <= own(a), own(a) < it,
+                H.parent_t(H.anc(result.get(a), VInt(dt + 1)).t) == tree.t,
+                off(own(a)) <= a, a < off(own(a) + 1),
+                result.get(a).t == TT(own(a)).get(a - off(own(a))).t)), [result.get(a).t])),
+        )
+
+    def no_duplicates(S):
+        """ghost assertion after the loop: no node was collected twice"""
+        H, tree, result = S.H, S.tree, S.result
+        a, b = z3.Int(fresh_name("na")), z3.Int(fresh_name("nb"))
+        el = lambda q: result.get(q).t
+        return VBool(z3.And(
+            qforall([a, b], z3.Implies(z3.And(0 <= a, a < b, b < result.n), el(a) != el(b)), [[el(a), el(b)]]),
+            # ... and every collected node is a token below `tree`
+            qforall([a], z3.Implies(z3.And(0 <= a, a < result.n), z3.And(
+                el(a) != 0, tobool(WF(H, VRef(el(a)))), H.nchild_t(el(a)) == 0,
+                tobool(desc(H, tree, VRef(el(a)))))), [el(a)])))
+
+    def post(S, tree, result):
+        return VBool(F_terminals(S.H, tree, result))
+
+    return Contract(
+        target="trees.trees.terminals", prop="C19", args=dict(tree=REF),
+        requires=requires, ensures={"tokens_under_tree_in_order_and_all_of_them": post},
+        result_type=TList(REF), result_name="py_terminals", heap_named=True,
+        decreases=lambda S, tree: S.H.hgt(tree),
+        loops={0: dict(inv=inv, types={"result": TList(REF)}, after=no_duplicates)},
+        solver_hints={"inv0.keep": {"cli_s": 30}, "post.": {"cli_s": 30}, "inv0.after": {"cli_s": 30}},
+    )
+
+
+VERIFY_AS = {"trees.trees.terminals": terminals_verified_contract}
+VERIFY.append("trees.trees.terminals")
+
+
+# ------------------------------------------------------------------------------------------------------------------
+# trees.children verified against its characterisation: a permutation of the stored child list, globally strictly
+# ordered by the number of the least token (callers use "result == C(tree)" with children_facts; C(tree) is that
+# unique list)
+# ------------------------------------------------------------------------------------------------------------------
+def lm(H, x):
+    """number of the least token under x"""
+    return H.num(H.terms(x).get(0)).t
+
+
+def children_verified_contract(reg):
+    def requires(S, tree):
+        return conj(WF(S.H, tree), tree != None, wf_theory(S.H), wf_theory_tokens(S.H))
+
+    def post(S, tree, result):
+        H = S.H
+        n = result.n
+        i, j = z3.Int(fresh_name("ci")), z3.Int(fresh_name("cj"))
+        el = lambda q: result.get(q).t
+        return VBool(z3.And(
+            n == H.nchild_t(tree.t),
+            # every element is a stored child, at a stored position (pos), and different indices hold different children
+            qforall([i], z3.Implies(z3.And(0 <= i, i < n), z3.And(
+                el(i) != 0, H.parent_t(el(i)) == tree.t, tobool(WF(H, VRef(el(i)))),
+                0 <= H.pos(VRef(el(i))).t, H.pos(VRef(el(i))).t < n,
+                H.child_t(tree.t, H.pos(VRef(el(i))).t) == el(i))), [el(i)]),
+            qforall([i, j], z3.Implies(z3.And(0 <= i, i < j, j < n),
+                                       z3.And(el(i) != el(j), lm(H, VRef(el(i))) < lm(H, VRef(el(j))))),
+                    [[el(i), el(j)]]),
+        ))
+
+    return Contract(
+        target="trees.trees.children", prop="C19", args=dict(tree=REF),
+        requires=requires, ensures={"stored_children_permuted_into_strict_order_of_least_token": post},
+        result_type=TList(REF),
+        solver_hints={"post.": {"cli_s": 30}},
+    )
+
+
+VERIFY_AS["trees.trees.children"] = children_verified_contract
+VERIFY.append("trees.trees.children")
